@@ -79,6 +79,7 @@ ASSUMPTIONS = [
     "(not in the statement), matrices whose correlation matrix has condition number <= 1e7; either assignment of the drawn flat deviate vector "
     "to (component, sample) - [k*n+j] or [j*d+k] - is accepted since the statement does not fix it; "
     "mean and cov are passed as numpy arrays",
+    "cap-argument-types: centre/radius given as float32 are checked against the region with a tolerance of 1e-4 degree (single-precision arguments may be processed in single precision: 360 * 2^-23 = 4e-5 degree; the statement does not promise double-precision results for single-precision input); int64 / Python int / 0-d float64 arguments must reproduce the Python-float results to 1e-9 degree",
     "random_indices: 'honours its range and uniqueness option' includes raising ValueError when the request is "
     "impossible (unique with nrand > imax, or nrand > 0 from an empty range)",
     "seeded sampler: the reference map is applied to rng.uniform(size=n) of an equal seeded generator (the single call the "
@@ -234,7 +235,7 @@ def radius_class(rad):
     return "r-full-sphere"
 
 
-def check_cap_points(ra, dec, rad, lon, lat, rr, us, n):
+def check_cap_points(ra, dec, rad, lon, lat, rr, us, n, tol=None):
     """the statement's claims for one cap draw; returns (message | None, wrapped?)"""
     for nm, v in (("longitudes", lon), ("latitudes", lat), ("radii", rr)):
         if v is None:
@@ -245,18 +246,19 @@ def check_cap_points(ra, dec, rad, lon, lat, rr, us, n):
             return "%s not finite: %r" % (nm, v[~np.isfinite(v)][:3].tolist()), False
     if n == 0:
         return None, False
+    tol = TOL_SEP if tol is None else tol
     if lon.min() < 0.0 or lon.max() > 360.0:
         return "longitude outside [0,360]: %r" % (lon[(lon < 0) | (lon > 360)][:3].tolist(),), False
     if np.abs(lat).max() > 90.0:
         return "latitude outside [-90,90]: %r" % (lat[np.abs(lat) > 90][:3].tolist(),), False
     d = vincenty(ra, dec, lon, lat)
     k = int(np.argmax(d))
-    if d[k] > rad + TOL_SEP:
+    if d[k] > rad + tol:
         return "point (%r, %r) lies %r degree from the centre, outside the cap of radius %r" % (
             float(lon[k]), float(lat[k]), float(d[k]), rad), False
     if rr is not None:
         k = int(np.argmax(np.abs(rr - d)))
-        if abs(rr[k] - d[k]) > TOL_SEP:
+        if abs(rr[k] - d[k]) > tol:
             return "returned radius %r differs from the actual separation %r degree (ratio %.4g)" % (
                 float(rr[k]), float(d[k]), float(rr[k] / d[k]) if d[k] else float("inf")), False
         if rr.min() < 0 or rr.max() > rad * (1 + 1e-14):
@@ -567,6 +569,41 @@ def main(ctx):
             yield (ra, dec, rad, dorot, (uu,), (pp,))
         yield (ra, dec, rad, dorot, tuple(p[0] for p in pairs), tuple(p[1] for p in pairs))
         yield (ra, dec, rad, dorot, (), ())
+
+    # the same caps with the centre and radius given as other numeric TYPES (numpy float32 / int scalars, 0-d arrays,
+    # Python ints): the result must be what the float64 value of the argument gives
+    def one_cap_types(case, rec):
+        ra, dec, rad, dorot, form = case
+        us = np.array([0.3, 0.64, 0.999999, 1e-12], dtype="f8")
+        pss = np.array([0.123, 0.77, 0.25, 0.5 + 1e-9], dtype="f8")
+        conv = {"f4": np.float32, "f4-0d": lambda v: np.array(v, dtype="f4"), "i8": lambda v: np.int64(v), "int": int,
+                "f8-0d": lambda v: np.array(v, dtype="f8")}[form]
+        try:
+            ref = coords.randcap(4, float(ra), float(dec), float(rad), get_radius=True, dorot=dorot, rng=StubRng([us, pss]))
+            got = coords.randcap(4, conv(ra), conv(dec), conv(rad) if form != "int" or float(rad).is_integer() else rad,
+                                 get_radius=True, dorot=dorot, rng=StubRng([us, pss]))
+        except Exception as e:
+            return rec.fail(case, "randcap with %s arguments raised %s: %s" % (form, type(e).__name__, e))
+        for nm, a, b in zip(("ra", "dec", "radius"), got, ref):
+            a, b = np.asarray(a, dtype="f8"), np.asarray(b, dtype="f8")
+            if form.startswith("f4"):
+                # single-precision arguments may be processed in single precision (the statement promises the region,
+                # not double-precision results for single-precision input): only the region oracle below applies
+                continue
+            if a.shape != b.shape or not np.all(np.abs(a - b) <= 1e-9):
+                return rec.fail(case, "randcap with the centre/radius given as %s: %s = %r, with Python floats of the same value %r"
+                                % (form, nm, a.tolist(), b.tolist()))
+        # single-precision arguments: the positions may carry single-precision error (360 * 2^-23 = 4e-5 degree)
+        msg, _ = check_cap_points(float(ra), float(dec), float(rad), got[0], got[1], got[2], us if not form.startswith("f4") else None, 4,
+                                  tol=1e-4 if form.startswith("f4") else None)
+        if msg:
+            return rec.fail(case, "%s arguments: %s" % (form, msg))
+        rec.ok(case, outcome="types:%s" % form, nontrivial=True, calls=2)
+
+    tunits = [(ra, dec, rad, dorot, form) for (ra, dec) in ((37.0, 45.0), (12.0, 10.0), (0.0, 0.0), (200.0, -60.0))
+              for rad in (0.0009765625, 1.0, 100.0) for dorot in (False, True) for form in ("f4", "f4-0d", "i8", "int", "f8-0d")
+              if not (form in ("i8", "int") and rad < 1)]
+    ctx.lattice("cap-argument-types", tunits, one_cap_types, engine="environment", bounds=dict(forms=["f4", "f4-0d", "i8", "int", "f8-0d"]))
 
     ctx.lattice("cap", units_cap, one_cap, expand=expand_cap, engine="environment",
                 bounds=dict(centres=centres, radii=radii, u=us_a, psi_over_2pi=ps_a, dorot=[False, True],
@@ -1033,8 +1070,18 @@ def main(ctx):
             for unique in (True, False):
                 units_i.append((imax, nrand, unique))
 
+    # index ranges around and beyond the 32-bit marks (with replacement, new-style generators: a legacy generator
+    # would build a permutation of the whole range)
+    for imax in (2 ** 31 - 1, 2 ** 31, 2 ** 31 + 5, 3000000000, 2 ** 32 - 1, 2 ** 32, 2 ** 32 + 7, 2 ** 40, 2 ** 62):
+        units_i.append((imax, 200, False))
+
     def expand_indices(u):
         imax, nrand, unique = u
+        if imax > 10 ** 6:
+            for seed in (0, 1, 2):
+                for style in ("new", "seed"):
+                    yield (imax, nrand, unique, style, seed)
+            return
         yield (imax, nrand, unique, "stub", 0)
         for seed in (0, 1, 2):
             for style in ("legacy", "new", "seed"):
